@@ -320,6 +320,27 @@ Perm2Calls ==
     \cup {[C0 EXCEPT !.op = "rename", !.p = PG, !.q = PF]}
 PermCfgs == IF Profile = "perm1" THEN Perm1Cfgs ELSE Perm2Cfgs
 
+\* Profile "perm3": a deeper tree for the calls that work through a subtree (RemoveAll): /w/d holds a file with a
+\* second name outside (/w/e/l) and a directory /w/d/s with a file of its own, so that a removal refused half-way
+\* leaves something behind whose link counts must still be right
+PS == AbsP(<<"w", "d", "s">>)
+PSB == AbsP(<<"w", "d", "s", "b">>)
+PL == AbsP(<<"w", "e", "l">>)
+Perm3Hist(cfg) ==
+    <<[Mk("mkdir", PD) EXCEPT !.perm = 511], [Mk("mkdir", PE) EXCEPT !.perm = 511], [Mk("mkdir", PS) EXCEPT !.perm = 511],
+      Mk("writefile", PF), Mk("writefile", PSB), [C0 EXCEPT !.op = "link", !.p = PF, !.q = PL]>>
+    \o Dress(PS, cfg.e) \o Dress(PD, cfg.d)
+    \* (/w is open to everybody, so that what happens to /w/d is decided by /w/d and what it holds)
+    \o <<CChmod(WorkP, 511), [C0 EXCEPT !.op = "setumask", !.perm = 18], [C0 EXCEPT !.op = "setuser", !.uid = cfg.actor, !.gid = cfg.actor]>>
+Perm3Cfgs ==
+    {Cfg(d, e, DefaultNC, DefaultNC, 493, 18, 1001) : d \in NodeCfgs({7, 5, 3}, {0}), e \in NodeCfgs(IF MaxLen >= 2 THEN AllRwx ELSE {7, 5, 3, 0}, {0})}
+    \cup {Cfg(NC("oth", 0, 0), NC("oth", 0, 0), DefaultNC, DefaultNC, 493, 18, 0)}
+Perm3Calls ==
+    {[C0 EXCEPT !.op = "removeall", !.p = p] : p \in {PD, PS, PE, PF}}
+    \cup {[C0 EXCEPT !.op = "remove", !.p = p] : p \in {PS, PL}}
+    \cup {[C0 EXCEPT !.op = "rename", !.p = PS, !.q = AbsP(<<"w", "d", "t">>)]}
+    \cup {[C0 EXCEPT !.op = "readdir", !.p = PS], [C0 EXCEPT !.op = "walk", !.p = PD]}
+
 \* a call on a two-component path whose first component does not exist tells nothing that the
 \* same call with the other second component does not: keep one representative
 Pruned(s, c) ==
@@ -344,8 +365,9 @@ Calls(s) ==
                  [] Profile = "dirh" -> DirhCalls(s)
                  [] Profile = "perm1" -> Perm1Calls
                  [] Profile = "perm2" -> Perm2Calls
+                 [] Profile = "perm3" -> Perm3Calls
                  [] OTHER -> NsCalls IN
-    IF Profile \in {"symq", "symchain", "enum", "perm1", "perm2", "dirh"} THEN all ELSE {c \in all : ~Pruned(s, c)}
+    IF Profile \in {"symq", "symchain", "enum", "perm1", "perm2", "perm3", "dirh"} THEN all ELSE {c \in all : ~Pruned(s, c)}
 
 EdgeFile == IF "VERIF_EDGES" \in DOMAIN IOEnv THEN IOEnv.VERIF_EDGES ELSE ""
 GenImpl == IF "VERIF_IMPL" \in DOMAIN IOEnv THEN IOEnv.VERIF_IMPL ELSE "none"
@@ -375,15 +397,16 @@ Init ==
          [] Profile = "symchain" -> \E n \in ChainLens : hist = ChainHist(n) /\ st = RunCalls(InitSt, ChainHist(n))
          [] Profile = "dirh" -> hist = DirhHist /\ st = RunCalls(InitSt, DirhHist)
          [] Profile \in {"perm1", "perm2"} -> \E cfg \in PermCfgs : hist = PermHist(cfg) /\ st = RunCalls(InitSt, PermHist(cfg))
+         [] Profile = "perm3" -> \E cfg \in Perm3Cfgs : hist = Perm3Hist(cfg) /\ st = RunCalls(InitSt, Perm3Hist(cfg))
          [] OTHER -> st = InitFor /\ hist = <<>>
 
 \* configured profiles issue exactly one call from each initial state
-Budget == IF Profile \in {"symq", "symchain", "perm1", "perm2"} THEN 1 ELSE MaxLen
+Budget == IF Profile \in {"symq", "symchain", "perm1", "perm2", "perm3"} THEN 1 ELSE MaxLen
 
 EmitHist == IF Profile = "handles" THEN HandlesHist \o hist ELSE hist
 
 Next ==
-    /\ (IF Profile \in {"symq", "symchain", "perm1", "perm2"} THEN last.call.op = ""
+    /\ (IF Profile \in {"symq", "symchain", "perm1", "perm2", "perm3"} THEN last.call.op = ""
         ELSE IF Profile = "nsseed" THEN Len(hist) < MaxLen + 5 /\ (last.call.op = "" \/ Len(hist) < 4 + MaxLen)
         ELSE IF Profile = "dirh" THEN Len(hist) < MaxLen + 3
         ELSE Len(hist) < MaxLen)
